@@ -156,6 +156,10 @@ def run(ctx, chk, tier):
     from . import c06, c03, c07, c10
     c06.run(ctx, chk, tier)
     c03.sentinel_dtype(ctx, chk)
+    # equivariance of the TOPR / TONR setters presupposes that they invert over the pooled scores as given (a class cast to the other's
+    # dtype while merging is not an affine image of anything): R02.1
+    from . import c02s
+    c02s.flip_parity(ctx, chk, metrics=("topr", "tonr"))
     # AUC invariance rests on the AUC construction (both float neighbours of every score, own rates); relations between two runs
     # that share a target array rest on the setters not modifying caller arrays
     c07.structural(ctx, chk)
